@@ -122,7 +122,8 @@ class Unit:
             del self.groups[gname]
 
     def contract_for(self, cname, cfg):
-        for when, text in self.contracts.get(cname, []):
+        # the LAST matching definition wins: a unit may override a contract that came in through a shared include
+        for when, text in reversed(self.contracts.get(cname, [])):
             if when is None or cfg in when.split(','):
                 return text
         return None
